@@ -1,3 +1,26 @@
+// C10 — justification/finalization updates terminate, prune exactly, and keep the head.
+//
+// Oracle: zrntverif/fcmodel.PlanUpdate/CommitUpdate — refusal rules, no-op rule and the prune set
+// (every node outside the transition subtree of (finalized.root, start_slot(finalized.epoch)),
+// canonical iff it is a transition ancestor of that node), computed by direct walks. Histories from
+// zrntverif/fcsim (C09's generator with more UpdateJustified: pairs ahead/equal/behind/unknown/
+// conflicting/improper, block-node and gap-slot anchors, pinned or not; scripted prune sink: accepts
+// all, fails at the k-th reported node, or nil). Every call runs under a 10 s watchdog (a blocked
+// call is a violation, confirmed by a second run) with panic recovery. After each UpdateJustified:
+// error/nil as the model says, sink reports == model prune set (each once, right flag, nothing after
+// a sink error, exactly the reported prefix disappears), Justified()/Finalized()/Pin(), the node
+// set (Indices()) == the model's, then a sweep of every query kind over retained, pruned and
+// never-inserted roots; later blocks, votes and heads are compared as in C09.
+//
+// Sensitivity (tools/trymut.py, quick tier, each CAUGHT):
+//
+//	proto_array.go  OnPrune: `delete(pr.blockSlots, p.node.Ref.Root)` dropped               (pruned roots stay known)
+//	proto_array.go  OnPrune: `_, canonical := canonicalNodes[i]` -> `canonical = !canonical` (flag inverted)
+//	proto_array.go  OnPrune: `newIndices[i] = NodeIndex(remaining)` -> `NodeIndex(i)`        (indices not re-based; the repaired tree's successor of "indexOffset++ dropped")
+//	proto_array.go  OnPrune: `parent >= anchorIndex &&` dropped from the keep rule           (ancestors... kept)
+//	forkchoice.go   UpdateJustified: `fc.pin = nil` dropped                                  (pin survives finalization)
+//	forkchoice.go   updateJustified: `|| fc.finalized.Epoch > finalized.Epoch` dropped       (older finalized epoch accepted)
+//	forkchoice.go   UpdateJustified: no-op test `&&` -> `||`                                 (newer pair ignored)
 package c10
 
 import (
@@ -7,5 +30,22 @@ import (
 )
 
 func TestCheck(t *testing.T) {
-	fcsim.RunCheck(t, fcsim.Spec{Prop: "C10", Rule: "tbd", Quick: 300, Thorough: 3000, Sweep: "10" != "09"})
+	fcsim.RunCheck(t, fcsim.Spec{
+		Prop: "C10",
+		Rule: "C09 histories with ~17% UpdateJustified ops (pair taken from a tip's own epochs, any proper pair on a tip's chain, equal/behind, unknown roots, arbitrary known roots, justified epoch below finalized, finalized == justified; trigger in/outside/unknown; balances changed or not; balances callback failing), sinks ok/nil/fail-at-k (k in 1..8). non-trivial = an update that advances finalization, removes >=2 nodes and is followed by >=3 more ops; distinct key = (anchor kind: block node/gap-slot node/missing, prune-set size bucket, non-canonical count bucket, sink behaviour incl. failure hit, pinned?)",
+		Assume: []string{
+			"fcmodel (DESIGN.md Appendix A): refusal and no-op rules are those written in forkchoice.go UpdateJustified/updateJustified with the argument order of the exported signature; the justified root is checked against the CURRENT finalized subtree",
+			"canonical flag of a pruned node = it is a transition ancestor of the new finalized node (the only pruned nodes a chain through the finalized node can contain)",
+			"if the node (finalized.root, start_slot(finalized.epoch)) does not exist nothing is pruned (OnPrune's own comment); real callers always pass an existing checkpoint node",
+			"after a sink failure the checkpoints stay updated and the unreported nodes stay in the tree until a later finalization reports them (the package documents 'only prune what we successfully sent')",
+			"watchdog 10 s per call, believed only when it repeats",
+		},
+		Mandatory: []string{"prune:>=2-nodes-then->=3-ops", "prune:sink-failed-partway", "prune:reports-leftovers-of-failed-prune", "prune:nil-sink", "prune:anchor-gap-slot-node", "prune:anchor-block-node", "prune:anchor-missing",
+			"prune:while-pinned", "prune:unpinned", "prune:non-canonical-nodes", "head:after-prune", "upd:noop", "upd:applied-justified-only", "upd:refused:finalized-unknown", "upd:refused:justified-unknown",
+			"upd:refused:justified-before-finalized", "upd:refused:trigger-unknown", "upd:refused:trigger-outside-pin", "upd:refused:finalized-conflicting"},
+		SampleTags: []string{"prune:sink-failed-partway", "prune:anchor-gap-slot-node", "prune:anchor-block-node", "prune:nil-sink", "upd:refused:trigger-outside-pin", "prune:reports-leftovers-of-failed-prune"},
+		Quick:      2000, Thorough: 40000,
+		Sweep: true,
+		Tour:  fcsim.TourC10(),
+	})
 }
